@@ -26,10 +26,10 @@ HELPERS = [(0, 'bswap8', 0, 1, 8, 0), (1, 'bswap16', 0, 2, 16, 1), (2, 'bswap24'
            (36, 'sign_extend_u16_u8', 2, 1, 16, 0), (37, 'sign_extend_u32_u8', 2, 1, 32, 0), (38, 'sign_extend_u64_u8', 2, 1, 64, 0),
            (39, 'sign_extend_u32_u16', 2, 2, 32, 0), (40, 'sign_extend_u64_u16', 2, 2, 64, 0), (41, 'sign_extend_u64_u32', 2, 4, 64, 0),
            (42, 'sign_extend_s32_s8', 2, 1, 32, 0), (43, 'sign_extend_s64_s16', 2, 2, 64, 0), (44, 'sign_extend_s64_s32', 2, 4, 64, 0)]
-OPN = {'mul': 6, 'div': 7, 'mod': 8}
+OPN = {'add': 4, 'sub': 5, 'mul': 6, 'div': 7, 'mod': 8, 'preinc': 14, 'postinc': 15, 'predec': 16, 'postdec': 17}
 
 
-def Q(name, harness, defs, unwind=12, timeout=120, desc='', bounds='', **kw):
+def Q(name, harness, defs, unwind=12, timeout=90, desc='', bounds='', **kw):
     d = dict(name=name, unit='enc', harness=harness, defs=defs, unwind=unwind, timeout=timeout, mem_gb=3, desc=desc, bounds=bounds, tv_runs=60)
     d.update(kw)
     return d
@@ -48,8 +48,10 @@ def queries(tier):
             bnd = 'all %d-bit values v and operands d' % bits
             qs.append(Q(w + '_ops', 'h_wrap.c', defs, unwind=10, bounds=bnd,
                         desc=w + ': ctor/convert, =, store/load, store_raw/load_raw, += -= ' + ('' if flt else '&= |= ^= <<= >>= ') + '++x x++ --x x--, copy-assign (operator symbolic): object bytes and returned value vs native'))
-            for k in (('mul', 'div') if flt else ('mul', 'div', 'mod')):
+            for k in (('add', 'sub', 'mul', 'div', 'preinc', 'postinc', 'predec', 'postdec') if flt else ('mul', 'div', 'mod')):
                 d2 = dict(defs); d2['OP'] = OPN[k]
-                qs.append(Q('%s_%s' % (w, k), 'h_wrap.c', d2, unwind=10, bounds=bnd, cost=600 if bits == 64 else 100,
-                            desc='%s %s=: object bytes and returned value vs native, both operands symbolic' % (w, {'mul': '*', 'div': '/', 'mod': '%'}[k])))
+                if tier == 'quick' and bits == 64 and (flt or (k == 'mul' and sg)):
+                    continue  # double arithmetic and the int64 multiply-overflow predicate take 5-45 s each: thorough tier
+                qs.append(Q('%s_%s' % (w, k), 'h_wrap.c', d2, unwind=10, bounds=bnd, cost=600 if bits == 64 else 100, backend='z3',
+                            desc='%s operator %s: object bytes and returned value vs native, both operands symbolic' % (w, k)))
     return qs
